@@ -52,9 +52,8 @@ def run_units(units, repo=None, nproc=None, keep_queries=False):
                     nm = "%s~%d" % (ob.name, k)
                 names.add(nm)
                 ob.name = nm
-                text, sk = build_query(ob)
-                allq.append((nm, text))
-                meta[nm] = (r, ob, text)
+                allq.append(ob)
+                meta[nm] = (r, ob)
             r.obligations = len(obs)
             # vacuity guards
             r.vac = []
@@ -80,9 +79,10 @@ def run_units(units, repo=None, nproc=None, keep_queries=False):
             r.status = "error"
             r.msg = traceback.format_exc()
     t0 = time.time()
-    solved = solve_all(allq, nproc or _solve.NPROC)
-    for nm, (res, solver, secs, model) in solved.items():
-        r, ob, text = meta[nm]
+    solved = _solve.solve_obligations(allq, nproc or _solve.NPROC)
+    for ob, (res, solver, secs, model, text) in zip(allq, solved):
+        nm = ob.name
+        r, ob = meta[nm]
         r.solver_time += secs
         if res == "unsat":
             r.discharged += 1
